@@ -1,24 +1,40 @@
 """C13 — samples drawn in the gamut are in the gamut, reproducible and uniform."""
 import math
 import numpy as np
-from common import F, rs, vs, ms, dyadic, close, call
+from common import F, rs, vs, ms, dyadic, close, call, as_given
 from systems import gen_A, gen_K, gen_baseline, apply_K
 
 
-def cloud(rng, d, kind):
+def cloud(rng, d, kind, whole=False):
+    """point cloud of the given kind; whole=True: every coordinate is a whole number (a cloud a caller may write down with an
+    integer dtype)"""
     if kind == "random":
+        if whole:
+            return dyadic(rng, 0, 12, 0, size=(int(rng.integers(d + 2, d + 10)), d))
         return dyadic(rng, 0, 4, 4, size=(int(rng.integers(d + 2, d + 10)), d))
     if kind == "interior":      # many interior points around a few extreme ones
-        V = dyadic(rng, 0, 8, 3, size=(d + 2, d))
+        V = dyadic(rng, 0, 8, 3, size=(d + 2, d)) * (4.0 if whole else 1.0)
         W = rng.dirichlet(np.ones(d + 2), size=12)
+        if whole:
+            return np.vstack([np.round(V), np.round(W @ V)])
         return np.vstack([V, W @ V])
     if kind == "skewed":        # strongly anisotropic
+        if whole:
+            P = dyadic(rng, 0, 10, 0, size=(d + 6, d)); P[:, 0] *= 64.0
+            return P
         P = dyadic(rng, 0, 4, 4, size=(d + 6, d)); P[:, 0] *= 64.0; P[:, -1] *= 1 / 64.0
         return P
     if kind == "near_collinear":
+        if whole:
+            t = dyadic(rng, 0, 256, 0, size=(d + 6, 1)); return t * np.ones((1, d)) + dyadic(rng, -1, 1, 0, size=(d + 6, d))
         t = dyadic(rng, 0, 4, 4, size=(d + 6, 1)); P = t * np.ones((1, d)) + dyadic(rng, -1, 1, 6, size=(d + 6, d)) * 2.0 ** -6
         return P
     raise ValueError(kind)
+
+
+def full_dim(P):
+    Q = np.asarray(P, dtype=float)
+    return np.linalg.matrix_rank(Q[1:] - Q[0]) == Q.shape[1]
 
 
 def exact_moments(P):
@@ -38,12 +54,15 @@ def run(R):
     import dreye
     from scipy.spatial import ConvexHull
     n = 36 if R.tier == "quick" else 400
-    R.rule = ("point clouds in 2-4 dimensions (random, with many interior points, strongly skewed, nearly collinear) and "
-              "estimator systems (2-4 receptors, more sources than receptors) with and without l1; n in {1,2,7,100,10^4}; "
-              "engines None/Halton/Sobol/LHC; seeds. Predicates on dreye's samples: exact count, inside every facet of an "
-              "independently computed hull (1e-9), identical arrays for identical seeds, every l1 sample sums to l1, and for "
-              "the default engine with n = 10^4: sample mean vs exact centroid and half-space fractions vs exact volume "
-              "fractions at 6 sigma. Non-trivial: cloud with interior points or >= d+3 vertices and n >= 100.")
+    R.rule = ("point clouds in 2-4 dimensions (random, with many interior points, strongly skewed, nearly collinear; half of them "
+              "with whole-number coordinates) handed in as float64 / integer dtype (whole-number clouds) / Fortran-ordered / "
+              "strided arrays, and estimator systems (2-4 receptors, more sources than receptors) with and without l1; "
+              "n in {1,2,7,100,10^4}; engines None/Halton/Sobol/LHC given by name or (function) as a scipy QMCEngine instance; "
+              "seeds given as int or numpy Generator. Predicates on dreye's samples: exact count, inside every facet of an "
+              "independently computed hull (1e-9), identical arrays for identical seeds, the samples of a cloud do not depend on "
+              "the representation (dtype / memory layout) its values were handed in (same seed, 1e-12), every l1 sample sums to "
+              "l1, and for the default engine with n = 10^4: sample mean vs exact centroid and half-space fractions vs exact "
+              "volume fractions at 6 sigma. Non-trivial: cloud with interior points or >= d+3 vertices and n >= 100.")
     for k in range(n):
         if not R.want(k):
             continue
@@ -56,6 +75,11 @@ def run(R):
         via = "estimator" if rng.integers(3) == 0 else "function"
         l1 = None
         c = dict(k=k, dim=d, cloud_kind=ckind, engine=engine, n=ns, seed=seed, via=via)
+        vrng = R.rng(8, k)     # representation / option variants (own stream: the values above stay what they were)
+        seed_kind = str(vrng.choice(["int", "int", "generator"]))
+        mkseed = (lambda: seed) if seed_kind == "int" else (lambda: np.random.default_rng(seed))  # noqa: E731
+        engine_as = "name"
+        Pref = None
         if via == "estimator":
             nf = d; nsrc = int(rng.integers(nf + 1, nf + 4))
             A = gen_A(rng, nf, nsrc, lo=0.0, hi=1.0, bits=3)
@@ -68,15 +92,35 @@ def run(R):
                 l1 = float(dyadic(rng, 0.5, 4, 2))
             c.update(A=A, ub=ub, l1=l1)
             est = lambda: dreye.ReceptorEstimator(filt, domain=1.0, sources=src, ub=ub)  # noqa: E731
-            fn = lambda: est().sample_in_gamut(n=ns, seed=seed, engine=engine, l1=l1)  # noqa: E731
+            fn = lambda: est().sample_in_gamut(n=ns, seed=mkseed(), engine=engine, l1=l1)  # noqa: E731
         else:
-            P = cloud(rng, d, ckind)
-            c.update(P=P)
-            fn = lambda: dreye.sample_in_hull(P.copy(), ns, seed=seed, engine=engine)  # noqa: E731
+            whole = bool(vrng.integers(2))
+            P = cloud(rng, d, ckind, whole)
+            if whole and not full_dim(P):
+                whole = False; P = cloud(rng, d, ckind, False)
+            c.update(P=P, whole=whole)
+            # the same values in the representation the caller hands in (the reference below is the float64 C-ordered copy)
+            Pg = as_given(vrng, P, R, "P", kinds=(("int",) if whole else ("fortran", "strided")))
+            given = "same" if Pg is P else ("int" if Pg.dtype.kind == "i" else "layout")
+            if engine is not None and vrng.integers(3) == 0:
+                engine_as = "instance"
+            from scipy.stats import qmc
+            mkeng = (lambda: engine) if engine_as == "name" else (lambda: {"Halton": qmc.Halton, "Sobol": qmc.Sobol, "LHC": qmc.LatinHypercube}[engine](d + 1, seed=seed + 1))  # noqa: E731
+            fn = lambda: dreye.sample_in_hull(Pg, ns, seed=mkseed(), engine=mkeng())  # noqa: E731
+            if given != "same":
+                Pref = lambda: dreye.sample_in_hull(P.copy(), ns, seed=mkseed(), engine=mkeng())  # noqa: E731
+            R.count("whole_coordinates:%s" % whole)
+        c.update(seed_kind=seed_kind, engine_as=engine_as)
+        R.count("seed_kind:%s" % seed_kind); R.count("engine_as:%s" % engine_as)
         for key in ("cloud_kind", "via"):
             R.count("%s:%s" % (key, c[key]))
         R.count("engine:%s" % engine); R.count("n:%d" % ns); R.count("dim:%d" % d); R.count("l1:%s" % (l1 is not None))
-        st, out = call(lambda: (fn(), fn()))
+        if via == "function":
+            # the cloud is passed as an argument of call(): the frame condition (argument unchanged) is checked
+            st, out = call(lambda Pg_: (fn(), fn()), Pg)
+        else:
+            st, out = call(lambda: (fn(), fn()))
+        stref, Sref = call(Pref) if Pref is not None else (None, None)
         nontriv = (k,) if (ns >= 100 and (ckind == "interior" or via == "estimator" or len(P) >= d + 3)) else None
         R.case(c, nontriv, sample=(nontriv is not None and ns <= 128))
         sig = "C13:%s:%s" % (via, "default" if engine is None else "qmc")
@@ -87,6 +131,15 @@ def run(R):
             R.failB(dict(c, impl_shape=S1.shape), "returned %s samples/shape, requested %d x %d" % (S1.shape, ns, d), sig + ":count"); continue
         if not np.array_equal(S1, S2):
             R.failB(dict(c, first=S1[:3], second=S2[:3]), "two calls with the same seed returned different samples", sig + ":seed")
+        if stref is not None:
+            # identical seed, identical cloud VALUES: the samples must not depend on the dtype / memory layout the cloud came in
+            scr = float(np.max(np.abs(P))) + 1.0
+            if stref != "ok":
+                R.failB(dict(c, impl_error=Sref), "sampling the float64 copy of the cloud raised %s: %s" % (stref, Sref), sig + ":raises:" + stref)
+            elif np.asarray(Sref).shape != S1.shape or np.max(np.abs(np.asarray(S1, dtype=float) - np.asarray(Sref, dtype=float))) > 1e-12 * scr:
+                R.failB(dict(c, given_dtype=str(np.asarray(Pg).dtype), samples_as_given=S1[:3], samples_float64=np.asarray(Sref)[:3]),
+                        "same seed, same cloud values: the samples for the cloud as given (dtype %s) differ from the samples for its "
+                        "float64 copy" % np.asarray(Pg).dtype, sig + ":representation")
         if l1 is not None:
             if np.max(np.abs(S1.sum(1) - l1)) > 1e-9 * l1:
                 R.failB(dict(c, sums=S1.sum(1)[:5]), "samples do not sum to the requested l1", sig + ":l1-sum")
